@@ -12,6 +12,7 @@ import PercevalModel.Lemmas.C03Dm
 import PercevalModel.Lemmas.C03Prec
 import PercevalModel.Lemmas.C03Evolve
 import PercevalModel.Lemmas.C03Mixed
+import PercevalModel.Lemmas.C03Keys
 import PercevalModel.Props.C02
 import Mathlib.LinearAlgebra.Matrix.ConjTranspose
 
@@ -1813,6 +1814,55 @@ example : Uniform [[1, 2], [2]] ∧ Uniform [[0], [0, 0]] := by
   · right; decide
   · left; decide
 
+/-! ## 13. the weights of a mixture: a dict keyed by NORMALISED state vectors (`SVDistribution`)
+
+"All mixtures of such states with arbitrary weights": the weight of a component of the mixture is what the
+assignments and accumulations (`svd[ψ] = v`, `svd[ψ] += w`, `svd.add(ψ, w)`) of its — normalised or not — vector add up
+to; reading a weight changes nothing. -/
+
+/-- **the repaired container means what was written**: after ANY sequence of assignments, accumulations and reads, with
+keys in any scaling, the weight stored for every component is the intended one (`norm` idempotent) -/
+theorem svd_weights_fixed {K : Type} [DecidableEq K] (norm : K → K) (hn : ∀ k, norm (norm k) = norm k)
+    (ops : List (KeyOp K)) (c : K) :
+    wget (svdRun true norm ops) c = intended norm c 0 ops := by
+  have key : ∀ (ops : List (KeyOp K)) (d : WDict K),
+      wget (ops.foldl (svdStep true norm) d) c = intended norm c (wget d c) ops := by
+    intro ops
+    induction ops with
+    | nil => intro d; rfl
+    | cons op r ih =>
+      intro d
+      rw [List.foldl_cons, ih]
+      cases op with
+      | set k v => simp only [svdStep, intended, wget_svdSet]
+      | iadd k w => simp only [svdStep, intended, wget_svdIadd_fixed norm hn]
+      | read k => simp only [svdStep, intended, (wget_svdGet_fixed norm hn d k c).1]
+  have := key ops []
+  simpa [svdRun, wget] using this
+
+/-- the value a read returns (repaired): the stored weight of the component -/
+theorem svd_read_fixed {K : Type} [DecidableEq K] (norm : K → K) (hn : ∀ k, norm (norm k) = norm k)
+    (d : WDict K) (k : K) : (svdGet true norm d k).2 = wget d (norm k) :=
+  (wget_svdGet_fixed norm hn d k k).2
+
+/-- **the pinned code does not**: with an un-normalised key (`k ≠ norm k`) `svd[k] += w` REPLACES the weight of the
+component instead of adding to it, and merely reading `svd[k]` returns 0 and sets the stored weight to 0
+(keys: Nat, every vector proportional to the normalised vector 0) -/
+theorem svd_weights_fails_on_current_code :
+    ¬ (∀ (ops : List (KeyOp Nat)) (c : Nat),
+        wget (svdRun false (fun _ => 0) ops) c = intended (fun _ => 0) c 0 ops) := by
+  intro h
+  have := h [.set 0 (1 / 5), .iadd 1 (3 / 10)] 0
+  revert this
+  decide +kernel
+
+example : wget (svdRun false (fun _ : Nat => 0) [.set 0 (1 / 5), .iadd 1 (3 / 10)]) 0 = 3 / 10 ∧
+    wget (svdRun true (fun _ : Nat => 0) [.set 0 (1 / 5), .iadd 1 (3 / 10)]) 0 = 1 / 2 ∧
+    wget (svdRun false (fun _ : Nat => 0) [.set 0 1, .read 1]) 0 = 0 ∧
+    wget (svdRun true (fun _ : Nat => 0) [.set 0 1, .read 1]) 0 = 1 := by decide +kernel
+
+example : ∀ k : Nat, (fun _ : Nat => 0) ((fun _ : Nat => 0) k) = (fun _ : Nat => 0) k := fun _ => rfl
+
 /-!
 Not proved here (validated by the correspondence on every run):
 * that the IMPLEMENTATION leaves out at a non-zero precision exactly what the model leaves out: sections 10 bounds
@@ -1825,7 +1875,8 @@ Not proved here (validated by the correspondence on every run):
   evaluated numerically by the harness (`loss_profile`), not proved; which components the native container discards
   is not modelled;
 * the identity of two multi-component state vectors as dict keys (native float comparison): not modelled
-  (distinct keys in `sameKey`);
+  (distinct keys in `sameKey`); section 13 models the dict discipline (`norm` abstract): which un-normalised vectors the
+  native normalisation maps to bit-identical keys is observed (scalings by powers of two, fresh copies), not modelled;
 * states mixing annotated and un-annotated photons: `native` (Model/C03Mixed.lean) describes what the native
   `separate_state` / `get_photon_annotation(0)` were observed to do; that they do it is the correspondence (every
   request is read through `native`; groups and annotation map compared with the real objects), not a theorem.
